@@ -61,6 +61,9 @@ func randomPacket(c *Ctx, tw *TunWorld, p *TunPlan) CPkt {
 	case 5:
 		return PChannel(p.DeniedHost, HostDenied)
 	case 6:
+		if c.T.Bool(1, 2) {
+			return PChannelAlts(p.UnreachHost, HostUnreachable, []string{p.DeniedHost, p.AllowedHost}[:1+c.T.Choose(2)])
+		}
 		return PChannel(p.UnreachHost, HostUnreachable)
 	case 7:
 		return PData(c.T.Bytes(1+c.T.Choose(64), 0x55))
@@ -124,6 +127,11 @@ func mutateHistory(c *Ctx, tw *TunWorld, p *TunPlan, h []CPkt) ([]CPkt, []string
 					if c.T.Bool(1, 2) {
 						h[i] = PChannel(p.UnreachHost, HostUnreachable)
 						notes = append(notes, "host unreachable")
+						if c.T.Bool(1, 2) {
+							// the request lists alternate names (hosts that do answer)
+							h[i] = PChannelAlts(p.UnreachHost, HostUnreachable, [][]string{{p.DeniedHost}, {p.AllowedHost}, {p.DeniedHost, p.AllowedHost, p.DeniedHost}}[c.T.Choose(3)])
+							notes = append(notes, "with alternate names")
+						}
 					} else {
 						h[i] = PChannel(p.DeniedHost, HostDenied)
 						notes = append(notes, "host denied")
@@ -133,7 +141,8 @@ func mutateHistory(c *Ctx, tw *TunWorld, p *TunPlan, h []CPkt) ([]CPkt, []string
 			}
 		case 6: // malformed body
 			i := c.T.Choose(len(h))
-			if h[i].Kind != KUnknown && h[i].Kind != KKeepalive && h[i].Kind != KData && !h[i].Malformed && len(h[i].Bytes) > 12 {
+			// (cutting a channel create inside its alternate names leaves the request itself intact)
+			if h[i].Kind != KUnknown && h[i].Kind != KKeepalive && h[i].Kind != KData && !h[i].Malformed && !h[i].Alts && len(h[i].Bytes) > 12 {
 				body := len(h[i].Bytes) - 8
 				keep := c.T.Choose(body - 4)
 				notes = append(notes, fmt.Sprintf("truncate %s to %d", h[i], keep))
